@@ -1,6 +1,7 @@
 """C11 - zero swaps exchange the crossing frames and are reversible (also serves C09's swap clauses)."""
 
 import math
+from fractions import Fraction
 
 import numpy as np
 from hypothesis import strategies as st
@@ -153,6 +154,23 @@ def body_swap(rec, c, prefix="swap"):
                 starts_ok = c["lm1"] or bk[-1] > L0
                 if allowed and roomy and starts_ok:
                     rec.check(False, f"{prefix}:valid-swap-rejected", f"status {status}; backward {bk}, forward {fw}; {info}")
+        # wire fencing in [0+]: the swap is accepted with probability min(1, w(new [0+] path) / w(old [0+] path)), the weights being the
+        # numbers of frames on qualifying sub-paths of [lambda_0, cap) (doubled for paths whose ends lie on different sides); [0-] shoots, weight 1
+        if c["move1"] == "wf" and status in ("ACC", "HAS") and engines[0][0].calls:
+            cap = c["cap"] if c["cap"] is not None else TOP
+
+            def hw(o):
+                w = wfref.wf_weight(o, L0, cap)
+                return w * (2 if (o[0] < L0) != (o[-1] < L0) else 1)
+
+            new1 = [c["old0"][-2]] + list(engines[0][0].calls[0]["frames"])
+            w_old, w_new = hw(c["old1"]), hw(new1)
+            if w_old > 0 and not (c["old1"][-1] > cap and c["old1"][-1] < TOP) and not (new1[-1] > cap and new1[-1] < TOP):
+                pacc = Fraction(w_new) / Fraction(w_old)
+                uf = Fraction(c.get("u", 0.5))
+                if abs(uf - pacc) > Fraction(1, 2**40):
+                    rec.cls(f"{prefix}:high-acceptance-rule-checked")
+                    rec.check(bool(acc) == (uf < pacc), f"{prefix}:high-acceptance-rule", f"u={float(uf)} pacc={pacc} (w_new {w_new}, w_old {w_old}, region [{L0},{cap})) status {status}; new [0+] {new1}; {info}")
         # old paths are never modified (accepted or not)
         a0, a1 = mk.snap_path(old0), mk.snap_path(old1)
         d0 = {k: (b0[k], a0[k]) for k in b0 if b0[k] != a0[k]}
